@@ -63,6 +63,11 @@ CLAIMED = {
    text="Structural necessary conditions decided at every site: in startServer no failing exit and no missing m.server store after the old server's Shutdown (all fallible steps precede the teardown) and the prepared server is started; reload() is never fatal; in ReloadManager.handleChanges a compile error never reaches Reload/SetState and is reported as failure, Reload installs exactly the compile result, state is restored only after a successful Reload, and compile+install form one critical section under rm.mu; server/connection/hash tables only under their mutexes; the poller hashes every present file on every poll.",
    note="Does not cover port-release timing, fsnotify/polling and debounce behaviour, request continuity. Trusted: go/types, go/ssa.",
    ref="DESIGN.md §3 C19"),
+ "C08": dict(
+   technique="static analysis: shared write-set over the request-reachable call graph (CHA), must-lockset over provider stores plus split read-modify-write rule, reference-escape (live record) audit, per-request freshness def-use, who-may-write rule for compiledTypeDefs",
+   text="Structural necessary conditions decided at every site: no request-reachable function of the interpreter writes the shared Interpreter/TypeChecker/ModuleResolver/globalEnv/package state without a lock; each compiled request executes on a VM created in its own closure and each interpreted request in an Environment created in ExecuteRoute; every access to the mock/real provider stores is under the owning mutex and no lookup-unlock-relock-write sequence exists; store methods neither return stored maps nor keep caller maps without copying; compiledTypeDefs is assigned only by setCompiledTypeDefs from setupRoutes and the compiled request path keeps no package-level Once/Pool state.",
+   note="Does not cover atomicity of multi-step protocols in user programs, scheduling-dependent outcomes, sharing of nested values inside copied records. Known findings: the evaluation-depth budget and TypeChecker.typeScope are shared between concurrent requests. Trusted: go/types, go/ssa, CHA call graph.",
+   ref="DESIGN.md §3 C08"),
 }
 
 NA_REASONS = {}
